@@ -107,7 +107,7 @@ def e2(tier):
             return info
         for name, enc, goal in queries:
             full = f"{key}/{name}"
-            res, model, solver = smt.solve(full, enc, goal, stats, 120000 if tier == "quick" else 600000)
+            res, model, solver = smt.solve(full, enc, goal, stats, 900000)
             if res == "unsat":
                 discharged += 1
                 if tier == "thorough":
